@@ -276,7 +276,7 @@ SUBPROCESS_FILTER_LISTS = ([], ["lcd"], ["lcd", "lcd"])
 #   invalid: (class, value) values outside the documented set: "bool" non-boolean for a boolean key, "enum" unknown enumeration
 #            string, "type" wrong JSON type, "range" integer outside the documented range, "syntax" string not of the documented form
 _BOOL_VALID = [True, False]
-_BOOL_INVALID = [("bool", "false"), ("bool", "true"), ("bool", 0), ("bool", 1), ("bool", "x")]
+_BOOL_INVALID = [("bool", "false"), ("bool", "true"), ("bool", 0), ("bool", 1), ("bool", "x"), ("bool", None)]
 _COLORS = ["#FFFFFF", "white", "#FF0000", "transparent", "black", "red", "#00ff0080"]
 _COLOR_INVALID = [("type", 5), ("type", True), ("syntax", "notacolor"), ("syntax", "#12")]
 
